@@ -26,8 +26,8 @@ def compare(found, expected, axes_expected, what):
 
 
 # ---- documented equations (written from the class docstrings / the property statement) -------------
-def spec_burgers():
-    u, ut, ux, uxx = U('u', 0), U('u', 0, 't'), U('u', 0, 0), U('u', 0, 0, 0)
+def spec_burgers(comp=0):
+    u, ut, ux, uxx = U('u', comp), U('u', comp, 't'), U('u', comp, 0), U('u', comp, 0, 0)
     return [ut + TMAX * (u * ux - P('nu') * uxx)]
 
 
@@ -110,6 +110,18 @@ def run(chk):
             r = inst.evaluate(t, x, u, params({"nu": Pm("nu")}))
             return compare(r, spec_burgers(), gax(kind, 1) + (1,), "BurgerEquation")
         chk.run("C02.R1", f"{MOD}:BurgerEquation.equation", {"kind": kind}, go, construct=f"BurgerEquation[{kind}]")
+
+        # Burgers on a network with an auxiliary output: the solution is the component designated by slice_solution and the
+        # residual is the documented scalar expression on that component alone
+        if kind == 'PINN':
+            def go_aux():
+                inst = cls("BurgerEquation").make(Tmax=K("Tmax"), eq_params_heterogeneity=None)
+                t, x = inputs('PINN', 1)
+                u = Net('u', 'PINN', 2, 'nonstatio_PDE', 1, slice_solution=slice(1, 2))
+                r = inst.evaluate(t, x, u, params({"nu": Pm("nu")}))
+                return compare(r, spec_burgers(comp=1), (1,), "BurgerEquation")
+            chk.run("C02.R1", f"{MOD}:BurgerEquation.equation", {"kind": kind, "outputs": 2, "slice_solution": "[1:2]"}, go_aux,
+                    construct="BurgerEquation[PINN, auxiliary output]")
 
         # Fisher-KPP, arbitrary dimension
         for d in ((1, 2, 3) if thorough else (1, 2)):
